@@ -6,3 +6,4 @@ def build(run):
     PC.supercell_lattice(run)
     PC.simple_supercell_replication(run)
     PC.trimmed_cell_reorder(run)
+    run.py_contract(PC.CF, "Supercell._get_simple_supercell[SNF lattice points]", lambda: PC.snf_lattice_points(run), PC.replay_snf)
